@@ -493,18 +493,61 @@ Proof.
   destruct it as [t|n b v]; [reflexivity|]. destruct v; reflexivity.
 Qed.
 
-(* ---- Cow kind: a name is borrowed exactly when it is at most 100 bytes long ---- *)
-Definition macro_item_ok (it : item) : Prop :=
-  match it with
-  | ITimestamp _ => True
-  | IValue n b _ => b = (blen n <=? 100)
-  end.
-Definition raw_ok (raw : list (bytes * vcall)) : Prop := Forall (fun nv => blen (fst nv) <=? 100 = true) raw.
-
-Lemma named_ok : forall n f v, macro_item_ok (named (inflect n f) v).
+(* ---- Cow kind: a name is borrowed exactly when it is at most 100 bytes long (either revision of the tag code) ---- *)
+Lemma named_ok : forall n f v, cow_kind_ok (named (inflect n f) v).
 Proof.
-  intros. unfold named, macro_item_ok. rewrite const_str_value_borrowed, const_str_value_flat. reflexivity.
+  intros. unfold named, cow_kind_ok. rewrite const_str_value_borrowed, const_str_value_flat. reflexivity.
 Qed.
+
+Lemma cow_all : forall ftag,
+  (forall d, forall n, raw_short d = true -> Forall cow_kind_ok (Model.op_write pascal snake kebab ftag d n)) /\
+  (forall fs, forall ra pfx n, fields_raw_short fs = true -> Forall cow_kind_ok (Model.op_fields pascal snake kebab ftag ra pfx fs n)) /\
+  (forall k, forall ra pfx id n, kind_raw_short k = true -> Forall cow_kind_ok (Model.op_field pascal snake kebab ftag ra pfx id k n)) /\
+  (forall vs, forall ra pfx tg i n, variants_raw_short vs = true -> Forall cow_kind_ok (Model.op_variants pascal snake kebab ftag ra pfx tg vs i n)) /\
+  (forall d, forall ra pfx n, vdata_raw_short d = true -> Forall cow_kind_ok (Model.op_vdata pascal snake kebab ftag ra pfx d n)).
+Proof.
+  intros ftag. apply tree_mutind.
+  - intros ra pfx fs IH n H. cbn in H. exact (IH ra pfx n H).
+  - intros ra pfx tg vs IH i n H. cbn in H. exact (IH ra pfx tg i n H).
+  - intros. constructor.
+  - intros id k IHk r IHr ra pfx n H. cbn in H. apply andb_true_iff in H. destruct H as [Hk Hr].
+    change (Forall cow_kind_ok (Model.op_field pascal snake kebab ftag ra pfx id k n
+                                ++ Model.op_fields pascal snake kebab ftag ra pfx r n)).
+    apply Forall_app. split; [now apply IHk | now apply IHr].
+  - intros name unit sg v ra pfx id n _. cbn [Model.op_field]. constructor; [apply named_ok | constructor].
+  - intros p o d IH ra pfx id n H. cbn in H.
+    change (Forall cow_kind_ok (match o with
+                                | OptNone => []
+                                | _ => Model.op_write pascal snake kebab ftag d (append_to pascal snake kebab p (make_ns ra n))
+                                end)).
+    destruct o; try constructor; now apply IH.
+  - intros raw rawsg ra pfx id n H. cbn in H. cbn [Model.op_field].
+    induction raw as [|x r IH]; [constructor|]. cbn in H. apply andb_true_iff in H. destruct H as [Hx Hr].
+    cbn [map]. constructor; [|now apply IH]. cbn. now rewrite Hx.
+  - intros. cbn [Model.op_field]. constructor; [exact I | constructor].
+  - intros. constructor.
+  - intros. constructor.
+  - intros id name d IHd r IHr ra pfx tg i n H. cbn in H. apply andb_true_iff in H. destruct H as [Hd Hr].
+    change (Forall cow_kind_ok
+      (match i with
+       | O => (match tg with
+               | None => []
+               | Some t => [named (inflect (make_ns ra n) (tag_names pascal snake kebab ftag ra pfx t))
+                                  (VString (variant_name ra name id))]
+               end) ++ Model.op_vdata pascal snake kebab ftag ra pfx d n
+       | S j => Model.op_variants pascal snake kebab ftag ra pfx tg r j n
+       end)).
+    destruct i as [|j]; [|now apply IHr].
+    apply Forall_app. split; [|now apply IHd].
+    destruct tg as [t|]; [|constructor]. constructor; [apply named_ok | constructor].
+  - intros. constructor.
+  - intros fs IH ra pfx n H. cbn in H. exact (IH ra pfx n H).
+  - intros fs IH ra pfx n H. cbn in H. exact (IH ra pfx n H).
+Qed.
+
+Theorem cow_kind : forall ftag d, raw_short d = true ->
+  Forall cow_kind_ok (root_write pascal snake kebab ftag d).
+Proof. intros ftag d H. exact (proj1 (cow_all ftag) d ns_root H). Qed.
 
 End Refinement.
 
